@@ -2070,3 +2070,8 @@ def _name_parts(ctx):
 def _c15_axioms(ctx):
     """the facts of pathlib this module relies on (A1-A11, L1), against CPython"""
     pathspec.check_pathlib_axioms(ctx)
+
+
+# Assumed summaries of this module that follow from contracts PROVED for another property (Module.implied_by, ENGINE.md):
+# the refinement obligations are generated by this property's check and the proved contract is re-proved here.
+M.implied_by('exactly_lib.type_val_deps.dep_variants.ddv.ddv_validators:all_of', 'C03')
